@@ -865,6 +865,19 @@ func (w *world) genRequest(rt *rapid.T, gc genCfg) *request {
 	for i := range all {
 		all[i] = i
 	}
+	// one time out of three the request stays inside one top-level subtree, so that its paths share a
+	// prefix that can be split off (the more top-level containers the corpus has, the rarer that is by chance)
+	focused := false
+	if rapid.IntRange(0, 2).Draw(rt, "focus") == 0 {
+		top := w.leaves[pick(rt, all, "focus-leaf")].elems[0].Name
+		var sub []int
+		for _, i := range all {
+			if w.leaves[i].elems[0].Name == top {
+				sub = append(sub, i)
+			}
+		}
+		all, focused = sub, true
+	}
 	var claimed [][]model.PElem // delete / replace paths
 	free := func(el []model.PElem) bool {
 		if gc.conflicts {
@@ -886,6 +899,12 @@ func (w *world) genRequest(rt *rapid.T, gc genCfg) *request {
 			o = op{leaf: pick(rt, all, "del-leaf-i"), anchor: -1}
 		} else {
 			a := rapid.IntRange(0, len(w.anchors)-1).Draw(rt, "del-anchor")
+			if focused {
+				// an anchor on the way to a leaf of the subtree
+				if as := w.leaves[pick(rt, all, "del-focus-leaf")].anc; len(as) > 1 {
+					a = as[rapid.IntRange(1, len(as)-1).Draw(rt, "del-focus-anchor")]
+				}
+			}
 			if a == 0 && !chance(rt, "del-root", 3) && len(w.anchors) > 1 {
 				a = rapid.IntRange(1, len(w.anchors)-1).Draw(rt, "del-anchor2")
 			}
